@@ -308,7 +308,14 @@ class TimeInterp:
         if typ == "int":
             if any(c.denominator != 1 for c in form.values()):
                 raise AnalysisError("int form with fractional coefficient")
-            return Num(form, "int", True)
+            # integer arithmetic is exact, but it cannot repair an operand
+            # that already carries an error (int() of an inexact float)
+            if a.exact and b.exact:
+                return Num(form, "int", True)
+            scale = Fraction(1)
+            if isinstance(e, ast.BinOp) and isinstance(e.op, ast.Mult):
+                scale = abs((a if a.is_const() else b).coef("1"))
+            return Num(form, "int", False, (a.err + b.err) * scale)
         ea, eb = conv_err(a), conv_err(b)
         op = e.op if isinstance(e, ast.BinOp) else None
         if isinstance(op, ast.Mult):
@@ -535,9 +542,10 @@ class TimeInterp:
                 form[k] = form.get(k, Fraction(0)) + c / 10**6
             form = {k: c for k, c in form.items() if c}
             exact = _float_exact(form)
-            # datetime.timestamp() of an aware datetime is computed from a
-            # timedelta: whole seconds + microseconds / 1e6, two roundings
-            err = Fraction(0) if exact else ulp_at(Num(form).max_abs())
+            # datetime.timestamp() of an aware datetime is
+            # timedelta.total_seconds(): one correctly rounded division of an
+            # exact integer number of microseconds (< 2**53) by 10**6
+            err = Fraction(0) if exact else ulp_at(Num(form).max_abs()) / 2
             return Num(form, "float", exact, err)
         if m in ("timetuple", "utctimetuple") and not e.args:
             return Const(("timetuple", d.sec))
